@@ -3,7 +3,9 @@ package main
 import (
 	"fmt"
 	"math/rand"
+	"os"
 	"regexp"
+	"strings"
 	"time"
 
 	"github.com/reeflective/readline/internal/core"
@@ -26,11 +28,38 @@ func (c *cprReader) Read(p []byte) (int, error) {
 	}
 	c.served = true
 	// the query is made while the main routine is parked in this read
+	// (its query on the standard output is awaited: the flag it raises before printing it is then set)
+	pr, pw, _ := os.Pipe()
+	saved := os.Stdout
+	os.Stdout = pw
+	seen := make(chan struct{})
+	go func() {
+		defer pr.Close()
+		buf := make([]byte, 64)
+		var all []byte
+		for {
+			n, err := pr.Read(buf)
+			all = append(all, buf[:n]...)
+			if strings.Contains(string(all), "\x1b[6n") {
+				close(seen)
+				return
+			}
+			if err != nil {
+				return
+			}
+		}
+	}()
 	go func() {
 		x, y := c.keys.GetCursorPos()
 		c.result <- [2]int{x, y}
 	}()
-	time.Sleep(15 * time.Millisecond) // let it reach the hand-off channel
+	select {
+	case <-seen:
+	case <-time.After(2 * time.Second):
+	}
+	os.Stdout = saved
+	pw.Close()
+	time.Sleep(2 * time.Millisecond)
 	return copy(p, c.data), nil
 }
 func (c *cprReader) Close() error { return nil }
